@@ -259,6 +259,35 @@ func extractC08(c *Ctx) {
 	}
 	c.Add("wsCloseTimeoutMs", "Nat", fmt.Sprint(toMs), tsrc, "const wsCloseTimeout in milliseconds (0 = not found)")
 
+	// sendTrailer: the closing sequence in statement order (the deadline must be set before sendMu is taken)
+	seq := []string{}
+	ssrc := ""
+	if fd := c.FuncDecl(file, "gRPCWebSocketStream", "sendTrailer"); fd != nil {
+		ssrc = c.Pos(fd)
+		for _, st := range fd.Body.List {
+			ast.Inspect(st, func(n ast.Node) bool {
+				call, ok := n.(*ast.CallExpr)
+				if !ok {
+					return true
+				}
+				name := ""
+				switch f := call.Fun.(type) {
+				case *ast.SelectorExpr:
+					name = f.Sel.Name
+				case *ast.Ident:
+					name = f.Name
+				}
+				switch name {
+				case "SetDeadline", "SetWriteDeadline", "Lock", "Unlock", "WriteMessage", "WriteClose", "closeGracefully":
+					seq = append(seq, name)
+					return false
+				}
+				return true
+			})
+		}
+	}
+	c.Add("wsSendTrailerCalls", "List String", LeanStrList(seq), ssrc, "sendTrailer: deadline / mutex / write calls in statement order")
+
 	// always HTTP 200: no WriteHeader call anywhere in the gRPC-Web HTTP path
 	wh := 0
 	for _, fn := range [][2]string{{"GRPCWebBridge", "ServeHTTP"}, {"gRPCWebStream", "send"}, {"gRPCWebStream", "SetHeader"}, {"", "writeTrailerWithStatus"}} {
